@@ -23,12 +23,26 @@ _PATCH = [
 ]
 
 
+def clear_registries():
+    """ioflo keeps every Store / Tasker / ... ever created in class-level registries (Registrar.Names).  A worker that
+    executes hundreds of thousands of runs would grow without bound (about 10 KB per run), so each world starts and
+    ends with empty registries; this also makes automatically generated names independent of earlier runs."""
+    from ioflo.base import registering
+    todo = [registering.Registrar]
+    while todo:
+        c = todo.pop()
+        todo.extend(c.__subclasses__())
+        if "Names" in c.__dict__ or c is registering.Registrar:
+            c.Clear()
+
+
 @contextlib.contextmanager
 def world(faults=None, out=None, cap=64, latency=0, eph=None, trace=None, extra=()):
     """Yields a Net with every ioflo module's `socket` name replaced; `extra` is a list of
     (module name, attribute, replacement) applied and restored as well."""
     import importlib
     quiet_console()
+    clear_registries()
     net = Net(faults=faults, out=out, cap=cap, latency=latency, eph=eph, trace=trace)
     saved = []
     try:
@@ -44,3 +58,4 @@ def world(faults=None, out=None, cap=64, latency=0, eph=None, trace=None, extra=
     finally:
         for mod, attr, val in reversed(saved):
             setattr(mod, attr, val)
+        clear_registries()
